@@ -167,7 +167,7 @@ def constructor(rep, idx, ctor):
     rep.check(ok, "C10.5", site, "published map has the CSR bus geometry", f"self.wb_bus.memory_map = {ir.show(mm) if mm else None}")
     adds = [x for x, gen, ln in ctor.calls_named("add_window")]
     ok = len(adds) == 1 and adds[0][2] and adds[0][2][0] == ctor.parse("csr_bus.memory_map") and \
-        adds[0][1][1] == ctor.parse("self.wb_bus.memory_map")
+        (adds[0][1][1] == ctor.parse("self.wb_bus.memory_map") or (mm is not None and mm[0] == 'call' and adds[0][1][1] == mm))
     rep.check(ok, "C10.5", site, "the CSR bus map is the (only) window of the published map",
               f"add_window calls: {[ir.show(a) for a in adds]}")
     if len(adds) == 1:
